@@ -39,7 +39,8 @@ ASSUMPTIONS = [
 ]
 FLOORS = {'steps': 5000, 'staleness_opportunities': 200,
           'fresh_model_comparisons': 500, 'name_sets': 10,
-          'hostile_steps': 20, 'derived_models': 30}
+          'hostile_steps': 20, 'derived_models': 30,
+          'long_chain_steps': 60}
 ANCHOR_FUNCS = {
     'xlcalculator/evaluator.py': ['Evaluator.evaluate',
                                   'Evaluator.set_cell_value',
@@ -461,8 +462,50 @@ def run_sampled(ctx, count):
                         'staleness_opportunities': H.stale_op})
 
 
+def run_long_chains(ctx):
+    """a chain of 130 / 180 formula cells: evaluate its head, re-assign the
+    input at its far end, evaluate the head (and cells in the middle) again"""
+    from xlcalculator import Evaluator
+    rng = ctx.rng
+    for n in (130, 180):
+        for style in ('plus', 'sum'):
+            cells = {f'A{n + 1}': 1}
+            for k in range(1, n + 1):
+                cells[f'A{k}'] = f'=A{k + 1}+1' if style == 'plus' \
+                    else f'=SUM(A{k + 1},1)'
+            ev = Evaluator(subject.compile_dict(cells))
+            log = []
+            v = 1
+            for step in range(4):
+                if step:
+                    v = rng.choice([5, 10, -3, 0.5, 100]) + step
+                    ev.set_cell_value(f'Sheet1!A{n + 1}', v)
+                    log.append(f'set(A{n + 1}, {v})')
+                probes = [1] if step % 2 == 0 else \
+                    [rng.randint(2, n), 1, rng.randint(2, n)]
+                for k in probes:
+                    got = subject.outcome_of(
+                        lambda: ev.evaluate(f'Sheet1!A{k}'))
+                    want = ('value', ('num', float(v + n + 1 - k)))
+                    log.append(f'evaluate(A{k}) -> {got[1]}')
+                    ctx.event('steps')
+                    ctx.event('long_chain_steps')
+                    ctx.case(('long-chain', n, style, step, k == 1))
+                    if got != want:
+                        ctx.fail(f'[chain of {n} cells linked by {style}] '
+                                 f'after {log[-5:]}: evaluate(A{k}) -> {got}, '
+                                 f'reference {want[1]}',
+                                 {'template': f'chain-{n}-{style}',
+                                  'history': log, 'problem': str(got)},
+                                 monitor='evaluate-vs-reference',
+                                 group=f'long-chain:{style}')
+                        break
+
+
 def run(ctx):
     thorough = ctx.tier == 'thorough'
     COMPUTED.install()
+    if ctx.shard in (0, 5, 10) or thorough:
+        run_long_chains(ctx)
     run_exhaustive(ctx, 5 if thorough else 4)
     run_sampled(ctx, (3000 if thorough else 96) // ctx.nshards)
